@@ -361,7 +361,9 @@ Mirrored ==                                        \* C05: the reader's tables h
     /\ \A k \in DOMAIN tabs.P.idx : tabs.P.idx[k] \in DOMAIN rd.pfx /\ rd.pfx[tabs.P.idx[k]] = k
     /\ \A k \in DOMAIN tabs.D.idx : tabs.D.idx[k] \in DOMAIN rd.dts /\ rd.dts[tabs.D.idx[k]] = k
 
-BufBounded == FrameSize > 0 /\ PType # PT_GRAPHS => (pc = "idle" => buf < FrameSize)   \* C11 (write side)
+BufBounded ==                                      \* C11 (write side): from the second statement on, fewer than FrameSize rows pending
+  FrameSize > 0 /\ PType # PT_GRAPHS /\ ~NsDecl =>  \* (namespace rows and graph brackets enter the flow without a bounds check)
+    (pc = "idle" /\ DOMAIN rd.prev # {} => buf < FrameSize)
 
 (* simulation: print the behaviour when the history is full *)
 PrintHist ==
